@@ -106,12 +106,21 @@ class ScriptedCV:
         self.script = script      # object with .next_wake() -> (ev|None, dt) | None
 
     def wait(self, timeout=None):
-        w = self.script.next_wake()
+        """Returns what threading.Condition.wait returns: True when woken, False when timed out."""
+        sc = self.script
+        if sc.wpos == 0:
+            sc.send_start = self.clock.now           # first sleep of this call of send
+        t = self.chan.timeout
+        if t is not None and t > 0 and self.clock.now - sc.send_start >= t and sc.overrun is None:
+            # about to sleep again although this call of send has already slept for >= its timeout
+            sc.overrun = {"round": sc.idx, "slept": self.clock.now - sc.send_start, "timeout": t,
+                          "wakeups": sc.wpos}
+        w = sc.next_wake()
         if w is None:
             if timeout is None:
                 raise BlockedForever()
             self.clock.now += timeout
-            return
+            return False
         ev, dt = w
         if ev is not None:
             self.chan.lock.release()          # a real Condition.wait releases the lock while asleep
@@ -120,6 +129,7 @@ class ScriptedCV:
             finally:
                 self.chan.lock.acquire()
         self.clock.now += dt
+        return timeout is None or dt < timeout
 
     def notify_all(self):
         pass
@@ -169,6 +179,8 @@ class Script:
         self.rounds = rounds
         self.idx = 0
         self.wpos = 0
+        self.send_start = 0.0
+        self.overrun = None
 
     def cur(self):
         return self.rounds[self.idx] if self.idx < len(self.rounds) else ([], [])
@@ -274,7 +286,8 @@ def run_sendall_scripted(case):
     msgs = tr.data[before:]
     return {"code": classify(kind, val), "exc": None if kind != "exc" else type(val).__name__,
             "closed": bool(chan.closed), "eof": bool(chan.eof_sent), "window": chan.out_window_size,
-            "msgs": msgs, "pre_state": pre_state, "bad_header": tr.bad_header, "chan": chan}
+            "msgs": msgs, "pre_state": pre_state, "bad_header": tr.bad_header, "chan": chan,
+            "overrun": script.overrun}
 
 
 def canon(obs, data):
@@ -317,6 +330,11 @@ def oracle(ctx, case, obs):
     if data and not (pre_closed or pre_eof) and pre_window == 0 and case["timeout"] == 0.0 and code != 5:
         ctx.fail("sendall-nonblocking-no-timeout", "non-blocking sendall with a closed window must raise "
                  "socket.timeout", case=rep, expected="socket.timeout", observed=obs["exc"] or code)
+    if obs.get("overrun"):
+        ctx.fail("timed-send-outlives-timeout", "a timed send went back to sleep although it had already waited "
+                 "for its whole timeout without being able to send (wake-ups that open no window must not restart "
+                 "the timer): socket.timeout was due", case=rep, expected="socket.timeout after %s s"
+                 % obs["overrun"]["timeout"], observed=obs["overrun"])
     want = MSG_EXT if case["stderr"] else MSG_DATA
     if any(t != want for t, _ in obs["msgs"]) or obs["bad_header"] is not None:
         ctx.fail("sendall-wrong-stream", "data message of the wrong type / header for this stream",
@@ -344,6 +362,22 @@ def gen_case(rng, flavour):
     maxpkt = 64 + rng.choice([1, 2, 3, 5, 8, 20, 4032])
     window = rng.choice([0, 0, 1, 2, 3, 5, 10, n, max(0, n - 1), 1000])
     timeout = rng.choice([None, None, 0.0, 0.0, 1.0, 3.0, 10.0])
+    if flavour == "stall":
+        # timed mode, the window is (or soon gets) closed and the sender is woken repeatedly without progress:
+        # zero-byte window adjusts, spurious wake-ups, peer EOF; the slept time adds up past the timeout
+        n = max(n, 2)
+        data = [rng.randrange(256) for _ in range(n)]
+        timeout = rng.choice([2.0, 3.0, 5.0])
+        window = rng.choice([0, 0, 1, 2])
+        rounds = []
+        for k in range(rng.randrange(1, 4)):
+            wakes = [(rng.choice([None, ("EvAdjust", 0), ("EvAdjust", 0), ("EvPeerEof",)]), rng.choice([1, 1, 2]))
+                     for _ in range(rng.randrange(2, 7))]
+            if rng.random() < 0.5:
+                wakes.append((("EvAdjust", rng.choice([1, 3, 40])), rng.choice([0, 1])))
+            rounds.append(([], wakes))
+        return {"data": data, "window": window, "maxpkt": maxpkt, "timeout": timeout,
+                "stderr": rng.random() < 0.4, "rounds": rounds}
     closing = {"plain": 0.0, "mixed": 0.25, "closing": 0.6, "empty": 0.3}[flavour]
     rounds = []
     for k in range(rng.randrange(0, 7)):
@@ -463,7 +497,7 @@ def run(ctx):
 
     # ---- 1. scripted histories: sendall / sendall_stderr --------------------------------------
     cases, hangs = [], 0
-    plan = [("plain", 100), ("mixed", 250), ("closing", 250), ("empty", 10)]
+    plan = [("plain", 100), ("mixed", 230), ("closing", 230), ("stall", 60), ("empty", 10)]
     for flavour, n in plan:
         for _ in range(n * scale):
             case = gen_case(rng, flavour)
@@ -510,6 +544,10 @@ def run(ctx):
         finally:
             pc.time = saved
         st = [int(bool(chan.closed)), int(bool(chan.eof_sent)), chan.out_window_size]
+        if script.overrun:
+            ctx.fail("timed-send-outlives-timeout", "a timed send went back to sleep although it had already waited "
+                     "for its whole timeout without being able to send", case=case,
+                     expected="socket.timeout after %s s" % script.overrun["timeout"], observed=script.overrun)
         if kind == "ok" and isinstance(val, int):
             exp = [0, val] + st
             for t, p in tr.data:
